@@ -147,17 +147,25 @@ class Model:
             return self.productions(c)
         return [x for _, t in self.fields(c) for x in self.classes_in(t)]
 
-    def recursive(self):
-        """Symbols that can derive a program containing themselves: on a cycle of the derives graph."""
+    def recursive(self, lists_may_be_empty=True):
+        """Symbols that can derive a program containing themselves: on a cycle of the derives graph. (Whether a
+        production whose only way out is an EMPTY list has a program at all is the documented ambiguity of the
+        minimum depth: the caller may ask for either reading.)"""
+        # "derive a PROGRAM": only symbols from which a finite program exists take part (a production that mentions an
+        # abstract type without productions can never be completed, so no cycle runs through it)
+        lo, _ = self.mindepth_table(lists_may_be_empty=lists_may_be_empty)
+        productive = {c for c in self.registered if lo.get(c, INF) < INF}
         out = []
         for s in self.registered:
-            seen, todo = set(), list(self.derives_edges(s))
+            if s not in productive:
+                continue
+            seen, todo = set(), [c for c in self.derives_edges(s) if c in productive]
             while todo:
                 c = todo.pop()
                 if c in seen:
                     continue
                 seen.add(c)
-                todo.extend(self.derives_edges(c))
+                todo.extend(x for x in self.derives_edges(c) if x in productive)
             if s in seen:
                 out.append(s)
         return out
